@@ -45,3 +45,36 @@ Theorem C15_grading_roundtrip : forall a : astate, phys a ->
   generate_GSD RN [] (d50 / 1000) (p_Dp p) (p_nu p) (p_rhol p) (p_rhos p) (Some (d50 / d15)) (Some (d85 / d50)) = g.
 Proof. exact LC15a.grading_roundtrip. Qed.
 Print Assumptions C15_grading_roundtrip.
+
+(* WHOLE WORKBOOK: loading what store_to_excel writes gives the pipeline back -- name, every section in order (pipes with
+   name, diameter, length, K, elevation change; pumps with name, geometry, speed, limit mode, gear ratio, available power,
+   every row of the flow/head/power table, and the driver with its name and speed/power table), and the slurry sheet's
+   nine fields -- for EVERY well-formed abstract pipeline (pipe names without the word "pump", non-empty pump curves
+   without an all-zero row, a driver only on curve-limited pumps, non-zero D15 and D50, at most 40 pumps) and for ANY
+   numeric instance (cells are carried, never computed with: the statement holds for binary64 cells as for reals).
+   store = Models/ExcelStore.v, load = validate_excel + loaders of Models/Excel.v. *)
+From Coq Require Import String.
+From DHV Require Import Excel ExcelStore LC15b.
+Local Open Scope string_scope.
+Theorem C15_roundtrip : forall (T : Type) (N : NumOps T) (p : apipeline (T:=T)), wf N kmax0 p ->
+  load N (store N pump_title driver_title p) = ROk p.
+Proof. exact @LC15b.roundtrip_concrete. Qed.
+Print Assumptions C15_roundtrip.
+
+(* the same for any naming of the pump / driver tabs that keeps them recognisable and distinct *)
+Theorem C15_roundtrip_any_naming : forall (T : Type) (N : NumOps T) (ptitle dtitle key : nat -> string) (kmax : nat),
+  (forall k, (1 <= k <= kmax)%nat ->
+     hasT "pipeline" (ptitle k) = false /\ hasT "slurry" (ptitle k) = false /\ hasT "pump" (ptitle k) = true /\ hasT "driver" (ptitle k) = false) ->
+  (forall k, (1 <= k <= kmax)%nat ->
+     hasT "pipeline" (dtitle k) = false /\ hasT "slurry" (dtitle k) = false /\ hasT "pump" (dtitle k) = false /\ hasT "driver" (dtitle k) = true) ->
+  (forall k, (1 <= k <= kmax)%nat -> remove_suffix "pump" (lower (ptitle k)) = key k) ->
+  (forall k, (1 <= k <= kmax)%nat -> remove_suffix "driver" (lower (dtitle k)) = key k) ->
+  (forall i j, (1 <= i <= kmax)%nat -> (1 <= j <= kmax)%nat -> key i = key j -> i = j) ->
+  forall p : apipeline (T:=T), wf N kmax p -> load N (store N ptitle dtitle p) = ROk p.
+Proof. exact @LC15b.roundtrip. Qed.
+Print Assumptions C15_roundtrip_any_naming.
+
+(* the premises are satisfiable: a pipe - driver-limited pump - pipe line over the reals *)
+Theorem C15_roundtrip_nonvacuous : wf RN kmax0 example_pipeline.
+Proof. exact LC15b.example_wf. Qed.
+Print Assumptions C15_roundtrip_nonvacuous.
